@@ -1,19 +1,605 @@
-// Package c06: STUB — property C06 is not built yet.
+// Package c06: forged certificates of mitm.Config (host normalisation, cache, re-verification,
+// refusal of the empty host) against the Lean model Martian.Mitm, with an independent oracle that
+// uses Go's real x509 verifier and real TLS handshakes.
 package c06
 
-import "verif/harness/internal/core"
+import (
+	"bytes"
+	"crypto"
+	"crypto/rsa"
+	"crypto/tls"
+	"crypto/x509"
+	"fmt"
+	"net"
+	"regexp"
+	"strconv"
+	"strings"
+	"sync"
+	"time"
+
+	"github.com/google/martian/v3/mitm"
+
+	"verif/harness/internal/core"
+)
 
 type P struct{}
 
 func init() { core.Register(P{}) }
 
-func (P) ID() string   { return "C06" }
-func (P) Rule() string { return "stub" }
-func (P) Gen(r *core.Rand, tier string, emit func([]string)) {}
-func (P) NewExec() core.Exec                                   { return ex{} }
-func (P) Nontrivial(ops []string, impl []string) bool         { return false }
+func (P) ID() string { return "C06" }
+func (P) Rule() string {
+	return "case = one fresh mitm.Config (harness CA) driven by 8-30 ops: get/hs (GetCertificate directly or a real tls handshake over net.Pipe; " +
+		"TLS() or TLSForHost(fallback); SNI present/absent) over a pool of hosts in every spelling (LDH names in mixed case, IPv4, bare IPv6, " +
+		"[v6]:port, host:port, empty, :port, plus excluded/malformed spellings), SetValidity/SetOrganization, expire (sleep past the window of " +
+		"2-second certificates), conc (16 concurrent requesters over 4 hosts); or a batch of net.SplitHostPort / net.ParseIP strings from a " +
+		"grammar; distinct by hash of the op list; non-trivial when the case shows at least two outcome kinds among fresh / cached / refused " +
+		"(stdlib batches: both an accepted and a rejected string)"
+}
 
-type ex struct{}
+func (P) Nontrivial(ops []string, impl []string) bool {
+	kinds := map[string]bool{}
+	for _, l := range impl {
+		for _, k := range []string{" fresh ", " cached ", "refused", "shp ok", "shp err", "ip none"} {
+			if strings.Contains(l, k) {
+				kinds[k] = true
+			}
+		}
+		if strings.HasPrefix(l, "ip ") && l != "ip none" {
+			kinds["ip some"] = true
+		}
+	}
+	return len(kinds) >= 2
+}
 
-func (ex) Do(op string) core.Result { return core.Result{Impl: "bad-op"} }
-func (ex) Close()                   {}
+// ---- harness CA and a pool of configs (one RSA key per config; generated in parallel) ----
+
+var (
+	caOnce sync.Once
+	caCert *x509.Certificate
+	caKey  *rsa.PrivateKey
+	caPool *x509.CertPool
+	cfgCh  chan *mitm.Config
+)
+
+func setupCA() {
+	caOnce.Do(func() {
+		var err error
+		caCert, caKey, err = mitm.NewAuthority("verif-c06-ca", "Verif C06 Authority", 24*time.Hour)
+		if err != nil {
+			panic(err)
+		}
+		caPool = x509.NewCertPool()
+		caPool.AddCert(caCert)
+		cfgCh = make(chan *mitm.Config, 6)
+		for i := 0; i < 6; i++ {
+			go func() {
+				for {
+					c, err := mitm.NewConfig(caCert, caKey)
+					if err != nil {
+						panic(err)
+					}
+					cfgCh <- c
+				}
+			}()
+		}
+	})
+}
+
+const defaultOrg = "Martian Proxy"
+
+type ex struct {
+	mc        *mitm.Config
+	org       string
+	validity  time.Duration
+	serialIdx map[string]int    // serial -> first-occurrence index
+	orgAt     map[string]string // serial -> organisation configured when it was first seen
+	leaves    []*x509.Certificate
+	shortAt   time.Time // when the oldest unexpired short-lived certificate was handed out
+}
+
+func (P) NewExec() core.Exec {
+	return &ex{org: defaultOrg, validity: time.Hour, serialIdx: map[string]int{}, orgAt: map[string]string{}}
+}
+func (e *ex) Close() {}
+
+func (e *ex) cfg() *mitm.Config {
+	if e.mc == nil {
+		setupCA()
+		e.mc = <-cfgCh
+	}
+	return e.mc
+}
+
+func fail(sig, format string, a ...interface{}) core.Result {
+	return core.Result{Fail: fmt.Sprintf(format, a...), Sig: sig}
+}
+
+// ---- the oracle's own reading of a host spelling (independent of the Lean model) ----
+
+var (
+	reV6Port  = regexp.MustCompile(`^\[([0-9A-Fa-f:.]*)\]:([0-9]{0,5})$`)
+	reBrOnly  = regexp.MustCompile(`^\[[^\[\]]*\]$`)
+	reLDH     = regexp.MustCompile(`^[A-Za-z0-9]([A-Za-z0-9-]*[A-Za-z0-9])?(\.[A-Za-z0-9]([A-Za-z0-9-]*[A-Za-z0-9])?)*$`)
+	rePort    = regexp.MustCompile(`^[0-9]{0,5}$`)
+	reAllNums = regexp.MustCompile(`^[0-9.]+$`)
+)
+
+// classify returns the host the client named (port and brackets removed) and the class of the
+// spelling: "listed" (the property demands a certificate for name), "empty" (must be refused),
+// "excluded" (bracketed IPv6 literal without port: outside the listed spellings), "other"
+// (malformed or unlisted: only the generic checks apply).
+func classify(h string) (name, class string) {
+	name = h
+	switch {
+	case h == "":
+		return "", "empty"
+	case reV6Port.MatchString(h):
+		name = reV6Port.FindStringSubmatch(h)[1]
+		if name != "" && (net.ParseIP(name) == nil || !strings.Contains(name, ":")) {
+			return name, "other"
+		}
+	case reBrOnly.MatchString(h):
+		return h, "excluded"
+	case strings.ContainsAny(h, "[]"):
+		return h, "other"
+	case strings.Count(h, ":") == 1:
+		i := strings.IndexByte(h, ':')
+		if !rePort.MatchString(h[i+1:]) {
+			return h, "other"
+		}
+		name = h[:i]
+	case strings.Count(h, ":") >= 2:
+		if net.ParseIP(h) == nil {
+			return h, "other"
+		}
+		return h, "listed"
+	}
+	if name == "" {
+		return "", "empty"
+	}
+	if net.ParseIP(name) != nil {
+		return name, "listed"
+	}
+	if reLDH.MatchString(name) && !reAllNums.MatchString(name) && len(name) <= 200 {
+		return name, "listed"
+	}
+	return name, "other"
+}
+
+// effective host per the statement: SNI, else the CONNECT authority (TLSForHost only).
+func effective(mode, fb, sni string) (string, bool) {
+	if sni != "" {
+		return sni, true
+	}
+	if mode == "host" {
+		return fb, true
+	}
+	return "", false
+}
+
+type served struct {
+	tlsc *tls.Certificate
+	err  error
+	t0   time.Time // before the call
+	t1   time.Time // after the call
+}
+
+// check is the property oracle for one answer of GetCertificate.
+func (e *ex) check(mode, fb, sni string, s served) core.Result {
+	host, have := effective(mode, fb, sni)
+	name, class := "", "empty"
+	if have {
+		name, class = classify(host)
+	}
+	core.Count("class:" + class)
+	if s.err != nil || s.tlsc == nil {
+		if class == "listed" {
+			return fail("c06:refused-listed-host", "host %q (names %q) was refused: %v", host, name, s.err)
+		}
+		return core.Result{}
+	}
+	leaf := s.tlsc.Leaf
+	if leaf == nil {
+		return fail("c06:no-leaf", "certificate for %q has no parsed leaf", host)
+	}
+	if class == "empty" {
+		return fail("c06:empty-host-served", "no SNI and no fallback host (mode=%s fallback=%q) but a certificate was served (DNSNames=%q IPs=%v)", mode, fb, leaf.DNSNames, leaf.IPAddresses)
+	}
+	// generic: chain, organisation, key, exactly one SAN
+	if len(s.tlsc.Certificate) < 1 || !bytes.Equal(s.tlsc.Certificate[0], leaf.Raw) {
+		return fail("c06:chain-shape", "presented chain does not start with the leaf")
+	}
+	if err := leaf.CheckSignatureFrom(caCert); err != nil {
+		return fail("c06:not-verified:authority", "leaf for %q is not signed by the configured CA: %v", host, err)
+	}
+	ser := leaf.SerialNumber.String()
+	wantOrg, seen := e.orgAt[ser]
+	if !seen {
+		wantOrg = e.org
+	}
+	if len(leaf.Subject.Organization) != 1 || leaf.Subject.Organization[0] != wantOrg {
+		return fail("c06:wrong-org", "leaf for %q carries organization %q, configured %q", host, leaf.Subject.Organization, wantOrg)
+	}
+	signer, ok := s.tlsc.PrivateKey.(crypto.Signer)
+	if !ok {
+		return fail("c06:key-mismatch", "no private key with the certificate for %q", host)
+	}
+	if pk, ok := leaf.PublicKey.(*rsa.PublicKey); !ok || !pk.Equal(signer.Public()) {
+		return fail("c06:key-mismatch", "private key held does not match the leaf's public key (host %q)", host)
+	}
+	if len(leaf.DNSNames)+len(leaf.IPAddresses)+len(leaf.EmailAddresses)+len(leaf.URIs) != 1 {
+		return fail("c06:extra-names", "leaf for %q carries DNSNames=%q IPs=%v (exactly one name expected)", host, leaf.DNSNames, leaf.IPAddresses)
+	}
+	if class != "listed" {
+		return core.Result{}
+	}
+	// listed spelling: valid for exactly that host, now
+	if ip := net.ParseIP(name); ip != nil {
+		if len(leaf.IPAddresses) != 1 || !leaf.IPAddresses[0].Equal(ip) {
+			return fail("c06:wrong-name", "host %q is the IP %s but the leaf carries DNSNames=%q IPs=%v", host, ip, leaf.DNSNames, leaf.IPAddresses)
+		}
+	} else if len(leaf.DNSNames) != 1 || !strings.EqualFold(leaf.DNSNames[0], name) {
+		return fail("c06:wrong-name", "host %q names %q but the leaf carries DNSNames=%q IPs=%v", host, name, leaf.DNSNames, leaf.IPAddresses)
+	}
+	if e.validity >= time.Second {
+		_, err0 := leaf.Verify(x509.VerifyOptions{DNSName: name, Roots: caPool, CurrentTime: s.t0})
+		_, err1 := leaf.Verify(x509.VerifyOptions{DNSName: name, Roots: caPool, CurrentTime: s.t1})
+		if err0 != nil && err1 != nil {
+			return fail("c06:not-verified:"+verr(err1), "leaf for %q does not verify for %q at the time of the call: %v", host, name, err1)
+		}
+	}
+	return core.Result{}
+}
+
+func verr(err error) string {
+	switch x := err.(type) {
+	case x509.CertificateInvalidError:
+		if x.Reason == x509.Expired {
+			return "expired"
+		}
+		return "invalid"
+	case x509.HostnameError:
+		return "hostname"
+	case x509.UnknownAuthorityError:
+		return "authority"
+	}
+	return "other"
+}
+
+// show renders the observation; alias maps a grouping key to an index for certificates issued
+// concurrently within one op (nil outside conc).
+func (e *ex) show(s served, base map[string]bool, alias map[string]int, group string) string {
+	if s.err != nil || s.tlsc == nil || s.tlsc.Leaf == nil {
+		return "refused"
+	}
+	leaf := s.tlsc.Leaf
+	ser := leaf.SerialNumber.String()
+	idx, seen := e.serialIdx[ser]
+	if !seen {
+		if a, ok := alias[group]; ok && alias != nil {
+			idx = a
+		} else {
+			idx = e.nextIdx()
+			if alias != nil {
+				alias[group] = idx
+			}
+		}
+		e.serialIdx[ser] = idx
+		e.orgAt[ser] = e.org
+		e.leaves = append(e.leaves, leaf)
+		if leaf.NotAfter.Sub(time.Now()) < 3*time.Second && e.shortAt.IsZero() {
+			e.shortAt = time.Now()
+		}
+	}
+	fresh := "cached"
+	if !base[ser] {
+		fresh = "fresh"
+	}
+	san := "san:other"
+	switch {
+	case len(leaf.DNSNames) == 1 && len(leaf.IPAddresses) == 0:
+		san = "dns:" + core.HexS(leaf.DNSNames[0])
+	case len(leaf.DNSNames) == 0 && len(leaf.IPAddresses) == 1:
+		san = "ip:" + core.Hex(leaf.IPAddresses[0].To16())
+	}
+	org := "?"
+	if len(leaf.Subject.Organization) == 1 {
+		org = core.HexS(leaf.Subject.Organization[0])
+	}
+	span := int64(leaf.NotAfter.Sub(leaf.NotBefore)/time.Second) / 2
+	core.Count("served:" + fresh)
+	return fmt.Sprintf("cert %d %s %s org:%s span:%d", idx, fresh, san, org, span)
+}
+
+func (e *ex) nextIdx() int {
+	n := 0
+	for _, v := range e.serialIdx {
+		if v+1 > n {
+			n = v + 1
+		}
+	}
+	return n
+}
+
+func (e *ex) seenSet() map[string]bool {
+	m := map[string]bool{}
+	for k := range e.serialIdx {
+		m[k] = true
+	}
+	return m
+}
+
+func (e *ex) tlsConfig(mode, fb string) *tls.Config {
+	if mode == "tls" {
+		return e.cfg().TLS()
+	}
+	return e.cfg().TLSForHost(fb)
+}
+
+func (e *ex) hazard() {
+	if !e.shortAt.IsZero() && time.Since(e.shortAt) > 900*time.Millisecond {
+		core.Count("timing-hazard(op-later-than-900ms-after-short-cert)")
+	}
+}
+
+func (e *ex) Do(op string) core.Result {
+	t := strings.Fields(op)
+	if len(t) == 0 {
+		return core.Result{Impl: "bad-op"}
+	}
+	switch t[0] {
+	case "validity":
+		if len(t) != 2 {
+			break
+		}
+		n, err := strconv.Atoi(t[1])
+		if err != nil || n < 0 {
+			break
+		}
+		e.validity = time.Duration(n) * time.Second
+		e.cfg().SetValidity(e.validity)
+		return core.Result{Impl: "ok"}
+	case "org":
+		if len(t) != 2 {
+			break
+		}
+		b, ok := core.Unhex(t[1])
+		if !ok {
+			break
+		}
+		e.org = string(b)
+		e.cfg().SetOrganization(e.org)
+		return core.Result{Impl: "ok"}
+	case "expire":
+		// sleep until every handed-out short-lived leaf is past its window
+		var until time.Time
+		now := time.Now()
+		for _, l := range e.leaves {
+			if l.NotAfter.Sub(now) < 3*time.Second && l.NotAfter.After(until) {
+				until = l.NotAfter
+			}
+		}
+		if d := time.Until(until.Add(15 * time.Millisecond)); !until.IsZero() && d > 0 {
+			core.Count("expire:slept")
+			time.Sleep(d)
+		}
+		e.shortAt = time.Time{}
+		return core.Result{Impl: "ok"}
+	case "get", "hs":
+		if len(t) != 4 || (t[1] != "tls" && t[1] != "host") {
+			break
+		}
+		fbB, ok1 := core.Unhex(t[2])
+		sniB, ok2 := core.Unhex(t[3])
+		if !ok1 || !ok2 {
+			break
+		}
+		e.hazard()
+		fb, sni := string(fbB), string(sniB)
+		base := e.seenSet()
+		if t[0] == "get" {
+			cfg := e.tlsConfig(t[1], fb)
+			s := served{t0: time.Now()}
+			s.tlsc, s.err = cfg.GetCertificate(&tls.ClientHelloInfo{ServerName: sni})
+			s.t1 = time.Now()
+			r := e.check(t[1], fb, sni, s)
+			r.Impl = e.show(s, base, nil, "")
+			core.Count("op:get-" + t[1] + sniKind(sni))
+			return r
+		}
+		return e.handshake(t[1], fb, sni, base)
+	case "conc":
+		if len(t) != 2 {
+			break
+		}
+		var hosts []string
+		if t[1] != "-" {
+			for _, h := range strings.Split(t[1], ",") {
+				b, ok := core.Unhex(h)
+				if !ok {
+					return core.Result{Impl: "bad-op"}
+				}
+				hosts = append(hosts, string(b))
+			}
+		}
+		e.hazard()
+		return e.concurrent(hosts)
+	case "shp":
+		if len(t) != 2 {
+			break
+		}
+		b, ok := core.Unhex(t[1])
+		if !ok {
+			break
+		}
+		h, p, err := net.SplitHostPort(string(b))
+		if err != nil {
+			core.Count("shp:err")
+			return core.Result{Impl: "shp err"}
+		}
+		core.Count("shp:ok")
+		return core.Result{Impl: "shp ok " + core.HexS(h) + " " + core.HexS(p)}
+	case "parseip":
+		if len(t) != 2 {
+			break
+		}
+		b, ok := core.Unhex(t[1])
+		if !ok {
+			break
+		}
+		ip := net.ParseIP(string(b))
+		if ip == nil {
+			core.Count("parseip:none")
+			return core.Result{Impl: "ip none"}
+		}
+		core.Count("parseip:some")
+		return core.Result{Impl: "ip " + core.Hex(ip.To16())}
+	}
+	return core.Result{Impl: "bad-op"}
+}
+
+func sniKind(sni string) string {
+	if sni == "" {
+		return "-nosni"
+	}
+	return "-sni"
+}
+
+// handshake runs a real TLS handshake over net.Pipe; the server side is the config under test with
+// GetCertificate wrapped only to record what it was asked and what it answered.
+func (e *ex) handshake(mode, fb, sni string, base map[string]bool) core.Result {
+	cfg := e.tlsConfig(mode, fb)
+	orig := cfg.GetCertificate
+	var rec served
+	var sawSNI string
+	called := false
+	cfg.GetCertificate = func(hi *tls.ClientHelloInfo) (*tls.Certificate, error) {
+		called = true
+		sawSNI = hi.ServerName
+		rec.t0 = time.Now()
+		rec.tlsc, rec.err = orig(hi)
+		rec.t1 = time.Now()
+		return rec.tlsc, rec.err
+	}
+	cc, sc := net.Pipe()
+	defer cc.Close()
+	defer sc.Close()
+	dl := time.Now().Add(8 * time.Second)
+	cc.SetDeadline(dl)
+	sc.SetDeadline(dl)
+	srvErr := make(chan error, 1)
+	go func() {
+		s := tls.Server(sc, cfg)
+		err := s.Handshake()
+		if err != nil {
+			sc.Close()
+		}
+		srvErr <- err
+	}()
+	client := tls.Client(cc, &tls.Config{ServerName: sni, InsecureSkipVerify: true})
+	cerr := client.Handshake()
+	if cerr != nil {
+		cc.Close()
+	}
+	var serr error
+	select {
+	case serr = <-srvErr:
+	case <-time.After(9 * time.Second):
+		return core.Result{Impl: "hs hang", Fail: "server handshake did not return", Sig: "hang"}
+	}
+	core.Count("op:hs-" + mode + sniKind(sni))
+	if !called {
+		return core.Result{Impl: "hs no-call", Fail: fmt.Sprintf("GetCertificate was not called (client err %v, server err %v)", cerr, serr), Sig: "c06:harness"}
+	}
+	if sawSNI != sni {
+		return core.Result{Impl: "hs sni-mismatch", Fail: fmt.Sprintf("harness: server saw SNI %q, op says %q", sawSNI, sni), Sig: "c06:harness"}
+	}
+	r := e.check(mode, fb, sni, rec)
+	r.Impl = "hs " + e.show(rec, base, nil, "")
+	if r.Fail != "" {
+		return r
+	}
+	if rec.err != nil || rec.tlsc == nil {
+		if cerr == nil || serr == nil {
+			return core.Result{Impl: r.Impl, Fail: "certificate refused but the handshake completed", Sig: "c06:refused-but-completed"}
+		}
+		core.Count("hs:refused")
+		return r
+	}
+	if cerr != nil || serr != nil {
+		return core.Result{Impl: r.Impl, Fail: fmt.Sprintf("handshake did not complete with the served certificate: client=%v server=%v", cerr, serr), Sig: "c06:handshake-failed"}
+	}
+	st := client.ConnectionState()
+	if len(st.PeerCertificates) == 0 || !st.PeerCertificates[0].Equal(rec.tlsc.Leaf) {
+		return core.Result{Impl: r.Impl, Fail: "client received a different leaf than GetCertificate returned", Sig: "c06:handshake-leaf"}
+	}
+	// the chain as presented on the wire verifies at the client for the name it asked for
+	host, _ := effective(mode, fb, sni)
+	if name, class := classify(host); class == "listed" && e.validity >= time.Second {
+		inter := x509.NewCertPool()
+		for _, c := range st.PeerCertificates[1:] {
+			inter.AddCert(c)
+		}
+		if _, err := st.PeerCertificates[0].Verify(x509.VerifyOptions{DNSName: name, Roots: caPool, Intermediates: inter, CurrentTime: rec.t1}); err != nil {
+			return core.Result{Impl: r.Impl, Fail: fmt.Sprintf("chain received by the client does not verify for %q: %v", name, err), Sig: "c06:not-verified:" + verr(err)}
+		}
+	}
+	core.Count("hs:completed")
+	return r
+}
+
+// concurrent: every host of the list is requested by its own goroutine at the same time.
+func (e *ex) concurrent(hosts []string) core.Result {
+	mc := e.cfg()
+	base := e.seenSet()
+	res := make([]served, len(hosts))
+	start := make(chan struct{})
+	var wg sync.WaitGroup
+	for i, h := range hosts {
+		wg.Add(1)
+		go func(i int, h string) {
+			defer wg.Done()
+			cfg := mc.TLSForHost(h)
+			<-start
+			s := served{t0: time.Now()}
+			s.tlsc, s.err = cfg.GetCertificate(&tls.ClientHelloInfo{})
+			s.t1 = time.Now()
+			res[i] = s
+		}(i, h)
+	}
+	close(start)
+	done := make(chan struct{})
+	go func() { wg.Wait(); close(done) }()
+	select {
+	case <-done:
+	case <-time.After(20 * time.Second):
+		return core.Result{Impl: "conc hang", Fail: "concurrent requesters did not return", Sig: "hang"}
+	}
+	core.Count("op:conc")
+	alias := map[string]int{}
+	var out []string
+	var first core.Result
+	for i, h := range hosts {
+		r := e.check("host", h, "", res[i])
+		if r.Fail != "" && first.Fail == "" {
+			first = r
+		}
+		// "never receive a certificate issued for a different name": compare with the requester's own host
+		name, class := classify(h)
+		if first.Fail == "" && class == "listed" && res[i].tlsc != nil && res[i].tlsc.Leaf != nil {
+			l := res[i].tlsc.Leaf
+			okName := false
+			if ip := net.ParseIP(name); ip != nil {
+				okName = len(l.IPAddresses) == 1 && l.IPAddresses[0].Equal(ip)
+			} else {
+				okName = len(l.DNSNames) == 1 && strings.EqualFold(l.DNSNames[0], name)
+			}
+			if !okName {
+				first = fail("c06:cross-host", "concurrent requester %d for %q received DNSNames=%q IPs=%v", i, h, l.DNSNames, l.IPAddresses)
+			}
+		}
+		out = append(out, e.show(res[i], base, alias, name))
+	}
+	first.Impl = "conc " + strings.Join(out, ";")
+	return first
+}
